@@ -164,6 +164,7 @@ type op struct {
 	col          nameRef
 	hooks        bool // a hook-running update finisher
 	saveAll      bool
+	dropKey      bool // a create whose records carry keys while the key column is omitted / not selected
 	forms        map[string]bool
 }
 
@@ -637,6 +638,9 @@ func (g *gen) writesSomething(o *op) bool {
 			if !ok || (f.pk && isGoZero(f.k, mv.lv)) {
 				continue
 			}
+			if !o.isMap && f.dbDefault() && isGoZero(f.k, mv.lv) {
+				continue // left to the database
+			}
 			if a, _, _ := si.allowed(f.idx); a {
 				some = true
 			}
@@ -653,7 +657,7 @@ func (g *gen) ensureColumns(o *op) {
 	if g.writesSomething(o) {
 		return
 	}
-	o.sel, o.omit, o.selMode = nil, nil, "none"
+	o.sel, o.omit, o.selMode, o.dropKey = nil, nil, "none", false
 	if g.writesSomething(o) {
 		return
 	}
@@ -663,6 +667,67 @@ func (g *gen) ensureColumns(o *op) {
 			for j := len(g.m.pks) - 1; j >= 0; j-- {
 				rc.order = append([]int{g.m.pks[j].idx}, rc.order...)
 			}
+		}
+	}
+}
+
+// uniformDefaults: within one batch of structs a field whose default the database evaluates is
+// either zero in every record or non-zero in every record (a mixed batch makes gorm render the
+// DEFAULT keyword for the zero ones, which SQLite does not parse: not a write-set matter).
+func (g *gen) uniformDefaults(o *op) {
+	if len(o.recs) < 2 {
+		return
+	}
+	for _, f := range g.m.fields {
+		if f.pk || !f.dbDefault() {
+			continue
+		}
+		z := isGoZero(f.k, o.recs[0].vals[f.idx].lv)
+		for _, rc := range o.recs[1:] {
+			if isGoZero(f.k, rc.vals[f.idx].lv) == z {
+				continue
+			}
+			lv := fresh(f.k.class, g.next())
+			if z {
+				lv = lval{null: true}
+				if f.k.wrap == "plain" {
+					lv = zeroBase(f.k.class)
+				}
+			}
+			rc.vals[f.idx] = mval{form: "typed", lv: lv}
+		}
+	}
+}
+
+// createKeyNames finishes the Select/Omit of a create whose records carry explicit keys: either
+// the key columns stay writable (named in a restricting Select), or - integer keys only, where the
+// database can assign one - the key is omitted / left unselected and must then not be written.
+func (g *gen) createKeyNames(o *op, auto bool) {
+	r, m := g.r, g.m
+	if auto {
+		return
+	}
+	intKey := !m.composite() && m.pk.k.class != "string"
+	if intKey && r.Chance(1, 5) {
+		o.dropKey = true
+		ref := nameRef{fi: m.pk.idx, byCol: r.Bool()}
+		switch o.selMode {
+		case "sel":
+			// not selected
+		case "none":
+			o.selMode = "omit"
+			o.omit = append(o.omit, ref)
+		case "star":
+			o.selMode = "star+omit"
+			o.omit = append(o.omit, ref)
+		default:
+			o.omit = append(o.omit, ref)
+		}
+		return
+	}
+	if o.selMode == "sel" || o.selMode == "sel+omit" {
+		for _, f := range m.pks {
+			o.sel = append(o.sel, nameRef{fi: f.idx, byCol: r.Bool()})
 		}
 	}
 }
@@ -707,13 +772,10 @@ func (g *gen) genOp(kind string) *op {
 			}
 			o.recs = append(o.recs, g.structRec(k))
 		}
+		g.uniformDefaults(o)
 		o.elemPtr = r.Chance(1, 3)
 		g.selOmit(o, modesCreate, nonzeroFields(o.recs[0]))
-		if (o.selMode == "sel" || o.selMode == "sel+omit") && !auto {
-			for _, f := range m.pks {
-				o.sel = append(o.sel, nameRef{fi: f.idx, byCol: r.Bool()})
-			}
-		}
+		g.createKeyNames(o, auto)
 		g.ensureColumns(o)
 	case "create-map", "create-maps":
 		o.family = "create-map"
@@ -742,11 +804,7 @@ func (g *gen) genOp(kind string) *op {
 			o.recs = append(o.recs, rc)
 		}
 		g.selOmit(o, modesCreate, keysOf(o.recs[0]))
-		if (o.selMode == "sel" || o.selMode == "sel+omit") && !auto {
-			for _, f := range m.pks {
-				o.sel = append(o.sel, nameRef{fi: f.idx, byCol: r.Bool()})
-			}
-		}
+		g.createKeyNames(o, auto)
 		g.ensureColumns(o)
 	case "upsert-cols", "upsert-assign", "upsert-all", "upsert-nothing":
 		switch kind {
@@ -774,6 +832,7 @@ func (g *gen) genOp(kind string) *op {
 			rs[i] = o.recs[j]
 		}
 		o.recs = rs
+		g.uniformDefaults(o)
 		o.elemPtr = r.Chance(1, 3)
 		cands := g.nonKey()
 		switch kind {
@@ -855,6 +914,7 @@ func (g *gen) genOp(kind string) *op {
 			}
 			o.recs = append(o.recs, g.structRec(k))
 		}
+		g.uniformDefaults(o)
 		o.elemPtr = r.Chance(1, 3)
 		g.selOmit(o, modesOmit, nonzeroFields(o.recs[0]))
 	case "updates-struct", "updatecolumns-struct":
